@@ -163,6 +163,18 @@ CLAIMED = {
         "from the source expression, not translated mechanically.",
    technique="Lean 4 proof (unit pipeline as composed functions) + differential daemon histories + timed runs of the real executor",
    design="§5 C14"),
+ "C10": dict(
+   text="Lean theorems (Echse.Props.C10) about the transcribed byte/line/component layers of the push parser (esccpy, _ical_pull "
+        "with the stash and its mark, the component state machine of _ical_proc, push/pull/last_pull and the callers' "
+        "protocol): stash indices stay below 1024 and every pull terminates for ALL byte strings and chunkings; for inputs "
+        "without backslashes and without over-long lines the sequence of unfolded lines acted upon and of instructions is "
+        "the same for EVERY partition into chunks. The real parser (ECHSE_VERIF hook reporting the lines it acts upon) is "
+        "fed generated and damaged calendars under byte-wise, every-split-position and random chunkings with ASan; all "
+        "chunkings must yield the same instruction dump as the whole input, and lines/verbs are compared with the model.",
+   note="Trusted: Lean kernel; harness hx_strm.c; keyword tables regenerated from the .erf files; the meaning of property lines "
+        "(snarf_fld, make_task) is compared through the dump only (C05). KNOWN FINDING D17 (backslash escapes).",
+   technique="Lean 4 proof (invariant over the stash + induction over the partition) + differential chunking check with a source hook",
+   design="§5 C10"),
 }
 
 checks = []
@@ -188,9 +200,9 @@ m = {
     "version": 1,
     "setup_cmd": "sh ./setup.sh",
     "hooks": {"guard": "ECHSE_VERIF",
-              "enable": "the harnesses are compiled with -DECHSE_VERIF from a scratch copy of /repo/src; no guarded code has been added to /repo so far",
+              "enable": "harness/hx_strm.c #includes evical.c from a scratch copy of /repo/src compiled with -DECHSE_VERIF and provides echse_verif_line(); all other objects are compiled without the guard",
               "baseline_off_cmd": "make -C /repo check",
-              "source_commits": [], "add_only": True},
+              "source_commits": ["e4779d8"], "add_only": True},
     "engines": [{"name": "lean-proof+correspondence", "path": "/verif/check.py",
                  "serves_properties": [c["property_id"] for c in checks],
                  "kind_free_text": "Lean 4 theorems about an executable model (lean/Echse), tied to the C code by "
